@@ -100,3 +100,30 @@ SPECS["C11"] = (
   ("", "LengthProofs.v", "protect_rtcp_small_buffer_refused"),
   ("", "LengthProofs.v", "unprotect_rtcp_length")],
  "")
+SPECS["C20"] = (
+ "   C20: key material is wiped before its memory is released.  WipeModel.v gives the wipe / free events of srtp_stream_dealloc and\n"
+ "   srtp_dealloc as a function of the session; the implementation's own events (allocator + octet_string_set_to_zero wrappers) are\n"
+ "   compared with it event by event on every run, and every freed block is scanned for the secrets the model's KDF computes.\n"
+ "   `clean` = every free of an AES-ICM context, an HMAC block or an MKI copy is immediately preceded by a wipe of that whole block.\n"
+ "   PARTIAL: compiler dead-store elimination and stack residue are outside the model (the scan of the real binary is the evidence).",
+ "From Srtp Require Import Util Constants KeyLimit Rdb Rdbx Icm World Stream WipeModel WipeProofs.",
+ [("srtp_stream_dealloc (explicit stream, clone or template): clean in any context", "WipeProofs.v", "stream_dealloc_clean"),
+  ("srtp_dealloc of any session", "WipeProofs.v", "session_dealloc_clean"),
+  ("both salt fields of every key are wiped before the session-keys array is freed", "WipeProofs.v", "salts_wiped_before_array_freed")],
+ "")
+SPECS["C04"] = (
+ "   C04: integrity.  What the models of srtp_unprotect / srtp_unprotect_rtcp accept: the tag octets equal HMAC over EVERYTHING before the\n"
+ "   MKI (header, CSRCs, extension, payload, SRTCP trailer) followed by the ROC; the E bit and index are those of the trailer; the key is\n"
+ "   the one the MKI names.  Under an explicit collision-freeness premise (an idealisation: false for real truncated HMAC by counting)\n"
+ "   an accepted packet's authenticated portion is the sender's.  Unforgeability of HMAC-SHA1 itself is not provable here.",
+ "From Srtp Require Import Util Constants KeyLimit Rdb Rdbx Icm World Stream Rtp Rtcp WfProofs BoundsRtcp LengthProofs EqualModel EqualProofs IntegrityProofs.\nFrom Srtp.Crypto Require Import HMAC.",
+ [("the model's tag comparison is equality", "IntegrityProofs.v", "beqb_true_iff"),
+  ("... and so is the C constant-time compare (both chunk schedules)", "EqualProofs.v", "oct_equal_beqb"),
+  ("SRTP: accepted => tag = HMAC(k_a, all octets before the MKI || ROC)", "IntegrityProofs.v", "unprotect_pre_tag_matches_wf"),
+  ("SRTCP: accepted => E bit and index from the trailer, tag = HMAC over packet || trailer", "IntegrityProofs.v", "unprotect_rtcp_pre_tag_matches"),
+  ("MKI: the key used is the one whose MKI the packet carries (first such; unique under distinct MKIs)", "IntegrityProofs.v", "unprotect_pre_mki"),
+  ("", "IntegrityProofs.v", "unprotect_pre_mki_unique"),
+  ("idealised MAC: accepted => the authenticated portion and ROC are the sender's", "IntegrityProofs.v", "ideal_srtp_integrity"),
+  ("... so any alteration of header, payload, extension or ROC is rejected", "IntegrityProofs.v", "ideal_srtp_altered_rejected"),
+  ("SRTCP analogue", "IntegrityProofs.v", "ideal_srtcp_integrity")],
+ "")
